@@ -128,6 +128,52 @@ def probe_table():
     return entries, attrmap, extended, problems
 
 
+REFLECTED = {"__radd__": "+", "__rsub__": "-", "__rmul__": "*", "__rtruediv__": "/", "__rmod__": "%", "__rpow__": "**"}
+
+
+def probe_reflected():
+    """every reflected binary overload `__rX__` defined on Element / Operator, called with placeholder operands:
+    hole 0 = self, hole 1 = other (the LEFT operand of `other X self`).  Returns (rows, unspecified):
+    rows = [(key, 2, words, expected_sexp)]"""
+    import re
+    import BPTK_Py.sddsl.operators as O
+    from BPTK_Py.sddsl.element import Element
+    PH = make_ph()
+    m, els, vals, arrs = env()
+    rows, unspecified, problems = [], [], []
+    for owner, cls in (("Element", Element), ("Operator", O.Operator)):
+        for name in sorted(n for n in dir(cls) if re.fullmatch(r"__r[a-z]+__", n) and n not in ("__repr__", "__reduce__", "__reduce_ex__")):
+            meth = getattr(cls, name, None)
+            if meth is None or getattr(object, name, None) is meth:
+                continue
+            key = f"{owner}.{name}"
+            if name not in REFLECTED:
+                unspecified.append(key)
+                continue
+            try:
+                other = PH(1)
+                if owner == "Element":
+                    me = els["a"]
+                    words = pyfrag.lex(meth(me, other).term("t"))
+                    mine = pyfrag.lex(me.term("t"))
+                    out, i = [], 0
+                    while i < len(words):
+                        if words[i:i + len(mine)] == mine:
+                            out.append("H0"); i += len(mine)
+                        else:
+                            out.append(words[i]); i += 1
+                    words = out
+                else:
+                    words = pyfrag.lex(meth(PH(0), other).term("t"))
+            except Exception as ex:
+                problems.append((key, f"{type(ex).__name__}: {str(ex)[:80]}"))
+                continue
+            # `other X self`; for the commutative + and * also `self X other` (2.0 * a is built as a * 2.0)
+            exp = [f"({REFLECTED[name]} (hole 1) (hole 0))"] + ([f"({REFLECTED[name]} (hole 0) (hole 1))"] if REFLECTED[name] in "+*" else [])
+            rows.append((key, 2, words, exp))
+    return rows, unspecified, problems
+
+
 # ------------------------------------------------------------------ generator trees and their three readings
 # G-tree: ("num", v) | ("el", name) | ("agg", kind, arr) | (op, child, ...)
 BIN = ["add", "sub", "mul", "div", "pow", "mod"]
@@ -419,6 +465,28 @@ def classification_cases():
     return [r for r, _ in rows], [i for i, _ in inner], [(r, i, mk(x)) for r, mk in rows for i, x in inner]
 
 
+def number_side_trees(quick=True):
+    """every binary Python operator the DSL overloads with a number on the LEFT (reflected overloads / mirrored
+    comparisons) and on the RIGHT, over an element, a compound operand and a compound operand that itself has a number
+    on either side (depth 2 and 3).  A build that raises is a rejection; otherwise the value must be Python's."""
+    out = []
+    nums = [("num", 2.0)] if quick else [("num", 2.0), ("num", 0.5), ("num", -3.0)]
+    ops2 = ["sub", "div", "pow"] if quick else BIN
+    comp = [("el", "b"), ("add", ("el", "a"), ("el", "b")), ("sub", ("el", "a"), ("el", "c")), ("mul", ("el", "b"), ("el", "c")),
+            ("div", ("el", "a"), ("el", "c")), ("pow", ("el", "b"), ("el", "c")), ("neg", ("el", "b")), ("abs", ("sub", ("el", "c"), ("el", "a"))),
+            ("gt", ("el", "a"), ("el", "b")), ("min", ("el", "a"), ("el", "b")), ("agg", "arr_sum", "v")]
+    for op in BIN + list(CMPN):
+        for k in nums:
+            for x in comp:
+                out.append((op, k, x))                       # k op x
+                out.append((op, x, k))                       # x op k
+                for op2 in ops2:
+                    out.append((op, k, (op2, ("num", 3.0), x)))       # k op (3.0 op2 x)
+                    out.append((op, (op2, x, ("num", 3.0)), k))       # (x op2 3.0) op k
+                    out.append((op2, ("el", "d"), (op, k, x)))        # d op2 (k op x)
+    return out
+
+
 def gshrink(g, fails):
     """replace subtrees by leaves / children while the failure persists"""
     def subtrees(t, path=()):
@@ -450,14 +518,19 @@ def run(chk):
     quiet_bptk_logging()
     entries, attrmap, extended, problems = probe_table()
     keyidx = {e[0]: i for i, e in enumerate(entries)}
+    refl, refl_unspec, refl_problems = probe_reflected()
     table_src = ("import Bptk.Core.PyFrag\n/-! GENERATED from /repo by harness/props/c02.py on every run — do not edit. -/\n"
-                 + pyfrag.lean_table("table", entries, "Bptk.C02.Gen") + pyfrag.lean_table("extended", extended, "Bptk.C02.Gen"))
+                 + pyfrag.lean_table("table", entries, "Bptk.C02.Gen") + pyfrag.lean_table("extended", extended, "Bptk.C02.Gen")
+                 + pyfrag.lean_table("reflected", [r[:3] for r in refl], "Bptk.C02.Gen"))
     write_if_changed(os.path.join(LEAN, "Bptk", "Gen", "C02Table.lean"), table_src)
     b = lake_build(["Bptk.Gen.C02Table", "Bptk.Core.PyWire"])
     if not b["ok"]:
         raise LeanError("table module does not build: " + b["log"][-1500:])
     diag = dict(x.rsplit("=", 1) for x in drive("C02", ["tableok"])[0].split(";"))
     bad = {k: v for k, v in diag.items() if v != "ok"}
+    # reflected overloads: the Lean parser's reading of each probed row against `other X self`
+    rout = drive("C02", ["parse " + " ".join(r[2]) for r in refl]) if refl else []
+    refl_bad = {r[0]: o for r, o in zip(refl, rout) if o not in ["sexp " + x for x in r[3]]}
     chk.notes["table"] = {"classes": len(entries), "extended_classes": len(extended), "not_ok": bad, "probe_problems": problems[:20]}
     if not bad:
         ob = ("theorem table_ok : tableOK L table = true := by decide +kernel\n"
@@ -468,6 +541,13 @@ def run(chk):
               "theorem complete (e : E) (he : E.ok table L e = true) : parse (render table e) = some (denote table e) :=\n  (C02_parse_complete table table_ok e he).1\n#print axioms complete\n")
     else:
         ob = "theorem table_not_ok : tableOK L table = false := by decide +kernel\n#print axioms table_not_ok\n"
+    if not refl_bad:
+        ob += ("theorem refl_ok : reflOK reflected = true := by decide +kernel\n#print axioms refl_ok\n"
+               "theorem refl_denotes (t : Tmpl) (ht : t ∈ reflected) (k : BinOp) (hk : reflOp t.cls = some k) (α : Type) (C : Carrier α) (ρ : Nat → α) :\n"
+               "    eval C ρ (shapeOf t) = C.bin k (ρ 1) (ρ 0) ∨ (commutes k = true ∧ eval C ρ (shapeOf t) = C.bin k (ρ 0) (ρ 1)) :=\n"
+               "  refl_build_denotes reflected refl_ok t ht k hk α C ρ\n#print axioms refl_denotes\n")
+    else:
+        ob += "theorem refl_not_ok : reflOK reflected = false := by decide +kernel\n#print axioms refl_not_ok\n"
     gen = ("import Bptk.Props.C02\nimport Bptk.Gen.C02Table\n/-! GENERATED on every run. -/\nnamespace Bptk.C02.Gen\nopen Bptk.Py\n" + ob + "end Bptk.C02.Gen\n")
     ok, why = chk.prove(gen, extra_sources=["Bptk/Proofs/PyFrag.lean", "Bptk/Proofs/PySound.lean", "Bptk/Proofs/PyDet.lean", "Bptk/Proofs/PyComplete.lean", "Bptk/Core/PyFrag.lean", "Bptk/Gen/C02Table.lean"])
     chk.cov["trusted_base"] = [
@@ -488,6 +568,9 @@ def run(chk):
         d3 = depth3_trees()
         n_d3 = len(d3)
         trees += d3
+    ns = number_side_trees(chk.quick)
+    n_ns = len(ns)
+    trees += ns
     rng = chk.rng.fork("c02")
     for _ in range(400 if chk.quick else 6000):
         trees.append(gen_tree(rng, rng.range(2, 5)))
@@ -573,7 +656,7 @@ def run(chk):
             got, verr = None, f"{type(ex).__name__}: {ex}"
         if verr is None and not same(got, exp) and ref_fail is None:
             ref_fail = (g, got, exp, text)
-        classify(ti, "E" if verr is not None else ("R" if same(got, exp) else "W"), type(ex).__name__ if verr is not None else None)
+        classify(ti, "E" if verr is not None else ("R" if same(got, exp) else "W"), verr.split(":")[0] if verr is not None else None)
         # evaluation-time exception = "rejected with an exception": allowed, counted
         if verr is not None:
             stats.setdefault("eval_exceptions", 0); stats["eval_exceptions"] += 1
@@ -593,6 +676,8 @@ def run(chk):
     chk.cov["traces_validated_against_impl"] = len(meta)
     chk.cov["exhaustive_depth2_trees"] = n_exh
     chk.cov["depth3_reduced_alphabet_trees"] = n_d3
+    chk.cov["number_left_right_trees"] = n_ns
+    chk.cov["reflected_overloads"] = {"probed": [r[0] for r in refl], "not_ok": refl_bad, "unspecified": refl_unspec, "problems": refl_problems}
     chk.cov["distribution"] = stats
     # classification table: one string per row (outer operator[position], kind of the other operand), one letter per inner form
     counts = {}
@@ -608,6 +693,7 @@ def run(chk):
         "rejections": {k: v[:6] + ([f"... {len(v)} in all"] if len(v) > 6 else []) for k, v in sorted(cls_detail.items())},
     }
     chk.cov["rule"] = (f"every outer operator × operand position × inner operator of the C02 vocabulary (depth 2{', plus all +-*/**% triples at depth 3' if not chk.quick else ''}; {n_exh} trees){f', all depth-3 spines and two-compound-operand trees over the reduced alphabet (one representative per precedence level / associativity class) × all operand positions ({n_d3} trees)' if n_d3 else ''}, "
+                       f"every overloaded binary operator with a number on the left / right of an element, a compound and a number-sided compound operand ({n_ns} trees, depth 2–3), "
                        f"the classification table outer[position] × inner form × kind of the other operand incl. number-on-the-left forms ({len(ccases)} cases) "
                        "and seeded random trees to depth 5; per tree: real term text = Lean render; Lean parse = CPython ast.parse; denote = parse; parse with the proved fuel bound 2·length+2 = parse; real value = Python arithmetic. "
                        "distinct = canonical expression text; non-trivial = at least one compound operand")
@@ -634,6 +720,9 @@ def run(chk):
     if bad and ref_fail is None:
         chk.add_finding("obligation", f"tableOK fails for {bad} and no expression with a wrong value was found",
                         {"theorem": "Bptk.C02.Gen.table_ok (tableOK L table)", "not_ok": bad}, found_input=False)
+    if refl_bad and ref_fail is None:
+        chk.add_finding("obligation", f"reflected overloads do not build `other op self`: {refl_bad} and no expression with a wrong value was found",
+                        {"theorem": "Bptk.C02.Gen.refl_ok (reflOK reflected)", "not_ok": refl_bad}, found_input=False)
     if not ok:
         chk.add_finding("obligation", f"proof obligations of C02 no longer check: {why}", {"theorem": "Bptk.C02.Gen.*", "detail": why}, found_input=False)
     if corr is not None and ref_fail is None:
@@ -650,7 +739,13 @@ def replay(path):
     def tup(x): return tuple(tup(y) if isinstance(y, list) else y for y in x)
     g = tup(r["tree"])
     m, els, vals, arrs = env()
-    conv = m.converter("k"); conv.equation = build_real(g, els, arrs)
-    got, exp = conv(1), ref_eval(g, vals, arrs)
+    exp = ref_eval(g, vals, arrs)
+    try:
+        conv = m.converter("k"); conv.equation = build_real(g, els, arrs)
+        got = conv(1)
+    except Exception as ex:
+        # rejected with an exception: what the property allows for a nesting the DSL does not support
+        print(gshow(g), "-> rejected with", type(ex).__name__ + ":", str(ex)[:120], "(expected value", exp, ")")
+        return 0
     print(gshow(g), "->", got, "expected", exp, "text", conv.function_string)
     return 0 if float(got) == float(exp) else 1
